@@ -275,7 +275,11 @@
  * We use the bucket length as indicator for need to expand for small
  * tables and machines lacking per-cpu data support.
  */
+#if defined(URCU_VERIF) && defined(URCU_VERIF_COUNT_COMMIT_ORDER)
+# define COUNT_COMMIT_ORDER URCU_VERIF_COUNT_COMMIT_ORDER
+#else
 #define COUNT_COMMIT_ORDER		10
+#endif
 #define DEFAULT_SPLIT_COUNT_MASK	0xFUL
 #define CHAIN_LEN_TARGET		1
 #define CHAIN_LEN_RESIZE_THRESHOLD	3
@@ -289,7 +293,11 @@
 /*
  * Minimum number of bucket nodes to touch per thread to parallelize grow/shrink.
  */
+#if defined(URCU_VERIF) && defined(URCU_VERIF_MIN_PARTITION_PER_THREAD_ORDER)
+# define MIN_PARTITION_PER_THREAD_ORDER URCU_VERIF_MIN_PARTITION_PER_THREAD_ORDER
+#else
 #define MIN_PARTITION_PER_THREAD_ORDER	12
+#endif
 #define MIN_PARTITION_PER_THREAD	(1UL << MIN_PARTITION_PER_THREAD_ORDER)
 
 /*
